@@ -155,15 +155,17 @@ var c06CostSpellings = []struct {
 	{c06CostPrice, "", "E", ""},
 }
 
-func verifC06Cost(exLen0, exLen, sparseLo, sparseHi int) {
+// exLen0/sparseHi0 bound the exponents of the first spelling (plain posting), exLen/sparseHi
+// those of the others; strings over {0,9} start one digit above the exhaustive length.
+func verifC06Cost(exLen0, sparseHi0, exLen, sparseHi int) {
 	ctx := context.Background()
 	k := zzverif.Choice("spelling", len(c06CostSpellings))
 	sp := c06CostSpellings[k]
 	shape, esign := sp.shape, sp.esign
 	if k == 0 {
-		exLen = exLen0
+		exLen, sparseHi = exLen0, sparseHi0
 	}
-	exp := c06Exponent(exLen, sparseLo, sparseHi)
+	exp := c06Exponent(exLen, exLen+1, sparseHi)
 	num := sp.sign + zzverif.Digits("d", 1) + sp.e + esign + exp
 	content := c06CostDoc(shape, num)
 
@@ -202,11 +204,12 @@ func verifC06Cost(exLen0, exLen, sparseLo, sparseHi int) {
 }
 
 // VerifC06Cost (quick): exponents of 1..2 digits exhaustively, 3..6 digits over {0,9}, representatives.
-func VerifC06Cost() { verifC06Cost(2, 2, 3, 6) }
+func VerifC06Cost() { verifC06Cost(2, 6, 2, 6) }
 
-// VerifC06CostLong (thorough): 1..4 digits exhaustively for the plain posting (crosses the proxy
-// bound 4096), 1..3 for the other spellings; 4..10 digits over {0,9}; representatives.
-func VerifC06CostLong() { verifC06Cost(4, 3, 4, 10) }
+// VerifC06CostLong (thorough): plain posting: 1..4 digits exhaustively (crosses the proxy bound
+// 4096) and 5..10 digits over {0,9}; other spellings: 1..2 digits exhaustively, 3..8 over {0,9};
+// representatives.
+func VerifC06CostLong() { verifC06Cost(4, 10, 2, 8) }
 
 // ---------- inline completion handler ----------
 //
